@@ -28,7 +28,9 @@ func short(h string) string {
 	return h
 }
 
-func (c faultCase) key() string { return fmt.Sprintf("%s %s %s %d", short(c.Old), short(c.New), c.Sys, c.K) }
+func (c faultCase) key() string {
+	return fmt.Sprintf("%s %s %s %d", short(c.Old), short(c.New), c.Sys, c.K)
+}
 
 func lengthRelations(rng *common.RNG, tier string) [][2]string {
 	mk := func(n int, c byte) string {
